@@ -18,7 +18,8 @@ def _get_story_offsets(all_stories: Optional[List[Element]]) -> Optional[Dict[st
     if all_stories:
         t = 0
         for story in all_stories:
-            story_offsets[story.find('storyID').text] = t
+            # a story without a storyID tag is listed under None, like a blank one
+            story_offsets[story.findtext('storyID')] = t
             duration = _get_story_duration(story)
             if t is not None and duration is not None:
                 t += duration
